@@ -80,6 +80,21 @@ Theorem C09_seats_never_over_committed_in_any_snapshot_qpq : forall A cfg pr fue
 Proof. exact count_seats_qpq_every_snapshot. Qed.
 Print Assumptions C09_seats_never_over_committed_in_any_snapshot_qpq.
 
+(* the QPQ theorems have inhabitants: QPQ's own arithmetic (guarded, 9 + 9 places), 4 candidates, 2 seats; A is elected, then nobody
+   exceeds the quota, D is excluded and the count restarts (A is un-elected and elected again before anything is logged); the count
+   ends normally with two winners and no snapshot shows more than two *)
+Definition qpq_profile : profile :=
+  mkProfile 2 14
+    [mkPcand 1 1 1 "A" "1" false false; mkPcand 2 2 2 "B" "2" false false; mkPcand 3 3 3 "C" "3" false false; mkPcand 4 4 4 "D" "4" false false]
+    [(6, [1]); (3, [2]); (3, [3; 2]); (2, [4; 3])] [].
+Example C09_qpq_concrete :
+  match run_count (Guarded 9 9 9 0) (mkConfig "qpq" MQpq 2 14 false false false false 0) (2 ^ 12)%positive RQpq qpq_profile with
+  | Done s true => map (@cid _) (electeds _ s) = [1; 3] /\ map (@cid _) (defeateds _ s) = [2; 4] /\
+                   map (fun sn => nel_sts (ssn _ sn)) (snaps _ (actions s)) = [2; 2; 2; 2; 1; 1; 1; 1; 1; 1; 1; 1; 1; 0; 0]
+  | _ => False
+  end.
+Proof. vm_compute. repeat split; reflexivity. Qed.
+
 (* what "forward" allows, spelled out *)
 Example C09_forward_relation :
   fwd (Hopeful, None) (Elected, Some true) /\ fwd (Elected, Some true) (Elected, Some false) /\
